@@ -1766,10 +1766,13 @@ def parseExpr (fuel : Nat) (kinds : Array SyntaxKind) (joint : Array Bool)
     (noProgressLimit : Nat := 0) : Except Outcome (Array Ev × Nat) :=
   parseWith (entryExpr fuel) kinds joint noProgressLimit
 
-/-- Fuel that is enough for every terminating parse of `nTokens` tokens (measured, see the
-differential run): the call depth grows by a bounded amount per token, every loop iteration that
-does not consume a token pushes at least one event and is therefore cut by the no-progress hook
-after at most 2000 iterations. -/
+/-- Fuel that is enough for every terminating parse of `nTokens` tokens.  Fuel is passed *down*
+(not threaded), so what is needed is the maximum over call stacks of depth + loop iterations on
+the stack.  Measured on the differential inputs (≈ 2.5 million token sequences, plus nests and
+chains of up to 3000 tokens): the minimal sufficient fuel is at most `7 * nTokens + 10` (worst
+case: nested `{`); the only loops that iterate without consuming a token (the item loop of
+`_param_list_openqasm` for the flavours `DefParams`, `DefCalParams`, `TypeListFlavor`) push ≥ 6
+events per iteration and are cut by the no-progress hook (2000 events) after < 350 iterations. -/
 def defaultFuel (nTokens : Nat) : Nat := 64 * nTokens + 4096
 
 end Oq3.Grammar
